@@ -77,8 +77,14 @@ def main(argv=None):
     ap.add_argument("--all", action="store_true")
     ap.add_argument("--root", default=None)
     ap.add_argument("--selfcheck", action="store_true")
+    ap.add_argument("--no-evidence", action="store_true")
     a = ap.parse_args(argv)
     seed = int(os.environ.get("VERIF_SEED", "0") or 0)
+    if a.no_evidence:
+        import tempfile
+        report.EVIDENCE_DIR = tempfile.mkdtemp(prefix="sa_ev_")
+        import atexit, shutil
+        atexit.register(shutil.rmtree, report.EVIDENCE_DIR, True)
     if a.selfcheck:
         repo = Repo(a.root)
         print("selfcheck: parsed %d files under %s, digest %s" % (repo.n_files, repo.pkg, repo.digest[:12]))
